@@ -17,6 +17,7 @@ from kazoo.protocol.states import (EventType, KazooState, KeeperState,
 from kazoo.recipe.watchers import ChildrenWatch, DataWatch
 
 from . import SimCrash, HarnessError
+from . import rng as rngmod
 
 
 class _Node:
@@ -85,6 +86,27 @@ class SimZk:
         self.child_watches = {}
         self.oplog = []           # (seq, sid, op, path, owner_before, extra)
         self.stats = collections.Counter()
+        # ZooKeeper promises no order for the children it returns.  None:
+        # sorted by name (the default); an integer: a fixed arbitrary order
+        # per (path, child), a function of this per-run parameter only.
+        self.order_seed = None
+        self._order_keys = {}
+
+    def child_order(self, path, names):
+        """The order in which get_children returns `names` of `path`."""
+        names = sorted(names)
+        if self.order_seed is None:
+            return names
+        keys = self._order_keys
+        seed = self.order_seed
+
+        def key(name):
+            k = keys.get((path, name))
+            if k is None:
+                k = keys[(path, name)] = rngmod.mix(seed, path, name)
+            return k
+        names.sort(key=key)
+        return names
 
     def _now_ms(self):
         return int(self.clock.peek() * 1000)
@@ -235,6 +257,7 @@ class SimZk:
         freshly started process would find.  Ephemeral nodes are kept with
         their owners (their sessions live on in the original)."""
         other = SimZk(clock or self.clock, self.log)
+        other.order_seed = self.order_seed
         other.zxid = self.zxid
         other.nodes = {}
         for path, node in self.nodes.items():
@@ -440,7 +463,7 @@ class SimZkClient:
         if watch is not None:
             self._server.child_watches.setdefault(path, []).append(
                 (self._session.sid, watch))
-        children = sorted(node.children)
+        children = self._server.child_order(path, node.children)
         if include_data:
             return children, node.stat()
         return children
